@@ -1023,33 +1023,12 @@ Proof.
   - apply IH. exact Ht.
 Qed.
 
-Theorem cells_of_type_correct (cl : list cell) t : uniform cl ->
+Theorem cells_of_type_correct (cl : list cell) t :
   cells_of_type (file_connectivity cl) (0 :: file_offsets cl) (file_types cl) t = cells_with_type t cl.
 Proof.
-  intros Hu. unfold cells_of_type, cells_with_type, file_types.
-  destruct (indices_of t 0 (map fst cl)) as [|i0 rest] eqn:Ei.
-  - (* no cell of this type *)
-    assert (E : map (fun _ : N => @nil N) (indices_of t 0 (map fst cl)) = map snd (filter (fun c => fst c =? t) cl)).
-    { apply indices_of_map. intros j c Hn Hc. exfalso.
-      assert (In (0 + N.of_nat j) (indices_of t 0 (map fst cl))).
-      { clear Ei. revert j Hn. generalize 0 as from. induction cl as [|c0 cl IH]; intros from j Hn; [destruct j; discriminate|].
-        cbn [map indices_of]. destruct j as [|j].
-        - simpl in Hn. inversion Hn; subst c0. rewrite Hc, N.eqb_refl. left. lia.
-        - simpl in Hn. assert (Hu' : uniform cl).
-          { intros a b Ha Hb. apply Hu; right; assumption. }
-          specialize (IH Hu' (from + 1) j Hn). replace (from + N.of_nat (S j)) with (from + 1 + N.of_nat j) by lia.
-          destruct (fst c0 =? t); [right|]; exact IH. }
-      rewrite Ei in H. destruct H. }
-    rewrite Ei in E. simpl in E. exact E.
-  - assert (Hi0 : In i0 (indices_of t 0 (map fst cl))) by (rewrite Ei; left; reflexivity).
-    destruct (indices_of_spec t cl 0 i0 Hi0) as [j0 [c0 [Hj0 [Hn0 Ht0]]]].
-    rewrite N.add_0_l in Hj0. subst i0.
-    destruct (cell_at_offset cl j0 c0 Hn0) as [Hnc _]. rewrite Hnc.
-    rewrite <- Ei. apply indices_of_map. intros j c Hn Hc. rewrite N.add_0_l.
-    destruct (cell_at_offset cl j c Hn) as [_ Hcell].
-    assert (L : lenN (snd c0) = lenN (snd c)).
-    { apply Hu; [eapply nth_error_In; exact Hn0|eapply nth_error_In; exact Hn|congruence]. }
-    rewrite L. exact Hcell.
+  unfold cells_of_type, cells_with_type, file_types.
+  apply indices_of_map. intros j c Hn Hc. rewrite N.add_0_l.
+  destruct (cell_at_offset cl j c Hn) as [Hnc Hcell]. rewrite Hnc. exact Hcell.
 Qed.
 
 (* np.unique(types): ascending, without repetition, the same set *)
@@ -1090,11 +1069,11 @@ Qed.
 
 (* DESIGN 7/C05 vtu_regroup_correct: the mesh handed out by the reader has, for every cell type occurring in the file
    (in ascending type id), exactly the cells of that type in file order -- whatever the interleaving in the file *)
-Theorem vtu_regroup_correct (cl : list cell) : uniform cl ->
+Theorem vtu_regroup_correct (cl : list cell) :
   regroup_cells (file_connectivity cl) (file_offsets cl) (file_types cl)
   = map (fun t => (t, cells_with_type t cl)) (unique_sorted (file_types cl)).
 Proof.
-  intros Hu. unfold regroup_cells. apply map_ext. intros t. rewrite cells_of_type_correct by exact Hu. reflexivity.
+  unfold regroup_cells. apply map_ext. intros t. rewrite cells_of_type_correct. reflexivity.
 Qed.
 
 (* cell data: entire_array[index_map[ct]] picks the rows of the cells of that type, in file order *)
@@ -1196,16 +1175,17 @@ Proof.
 Qed.
 
 (* C13, mesh level: cells written type by type are read back per type: ascending type ids, and for every type of the
-   mesh exactly its cells in the mesh's order (a type without cells does not occur in the file) *)
-Theorem vtu_cells_write_read (g : groups) : NoDup (map fst g) -> rectangular g ->
+   mesh exactly its cells in the mesh's order (a type without cells does not occur in the file); the cells of one type
+   need not have one corner count (polygon blocks) *)
+Theorem vtu_cells_write_read (g : groups) : NoDup (map fst g) ->
   let r := regroup_cells (writer_connectivity g) (writer_offsets g) (writer_types g) in
   ascending (map fst r) /\
   (forall t cs, In (t, cs) g -> cs <> [] -> In (t, cs) r) /\
   (forall t cs, In (t, cs) r -> In (t, cs) g /\ cs <> []).
 Proof.
-  intros Hnd Hrect r.
+  intros Hnd r.
   assert (Er : r = map (fun t => (t, cells_with_type t (writer_cells g))) (unique_sorted (file_types (writer_cells g)))).
-  { unfold r. apply (vtu_regroup_correct (writer_cells g)). apply writer_cells_uniform; assumption. }
+  { unfold r. apply (vtu_regroup_correct (writer_cells g)). }
   assert (Htypes : forall t, In t (file_types (writer_cells g)) <-> exists cs, In (t, cs) g /\ cs <> []).
   { intros t. unfold file_types. rewrite in_map_iff. split.
     - intros [[t' c] [E Hin]]. cbn [fst] in E. subst t'. apply in_writer_cells in Hin.
